@@ -23,8 +23,7 @@ fn main() {
     bls::reg(&mut m);
 
     let argv: Vec<String> = std::env::args().collect();
-    let stdout = std::io::stdout();
-    let mut out = stdout.lock();
+    let mut out = std::io::stdout();
     if argv.len() > 1 && argv[1] == "--list-ops" {
         for k in m.keys() {
             writeln!(out, "{}", k).unwrap();
@@ -36,6 +35,26 @@ fn main() {
         input = std::fs::read_to_string(&argv[1]).expect("cannot read script");
     } else {
         std::io::stdin().read_to_string(&mut input).expect("cannot read stdin");
+    }
+
+    // Watchdog: an op that runs longer than H_OP_TIMEOUT_MS (default 60000, 0 = disabled) makes the harness
+    // print `TIMEOUT` for that line and exit(3).
+    let timeout_ms: u64 = std::env::var("H_OP_TIMEOUT_MS").ok().and_then(|s| s.parse().ok()).unwrap_or(60_000);
+    let busy: std::sync::Arc<std::sync::Mutex<Option<std::time::Instant>>> = std::sync::Arc::new(std::sync::Mutex::new(None));
+    if timeout_ms > 0 {
+        let busy = busy.clone();
+        std::thread::spawn(move || loop {
+            std::thread::sleep(std::time::Duration::from_millis(25));
+            let g = busy.lock().unwrap();
+            if let Some(t0) = *g {
+                if t0.elapsed() > std::time::Duration::from_millis(timeout_ms) {
+                    let mut o = std::io::stdout();
+                    let _ = writeln!(o, "TIMEOUT");
+                    let _ = o.flush();
+                    std::process::exit(3);
+                }
+            }
+        });
     }
 
     let mut results: Vec<St> = Vec::new();
@@ -52,7 +71,10 @@ fn main() {
             None => ("UNSUPPORTED".to_string(), St::No),
             Some(f) => {
                 let mut a = Args::new(rest, &results);
-                match catch_unwind(AssertUnwindSafe(|| f(&mut a))) {
+                *busy.lock().unwrap() = Some(std::time::Instant::now());
+                let r_ = catch_unwind(AssertUnwindSafe(|| f(&mut a)));
+                *busy.lock().unwrap() = None;
+                match r_ {
                     Err(_) => ("PANIC".to_string(), St::No),
                     Ok(Err(Bad::Input)) => ("BADINPUT".to_string(), St::No),
                     Ok(Err(Bad::Unsupported)) => ("UNSUPPORTED".to_string(), St::No),
